@@ -206,20 +206,12 @@ def run(ctx):
                 return False
         return True
 
-    def caller_returns_on_falsy(f, node):
-        """node is `X = yield from self.g()` directly followed by `if not X: return`."""
+    def falsy_result_name(node):
+        """node is `X = yield from self.g()`: the name X."""
         s = node.stmt
-        if not (isinstance(s, ast.Assign) and len(s.targets) == 1 and isinstance(s.targets[0], ast.Name)):
-            return False
-        x = s.targets[0].id
-        pm = pmaps.setdefault(f.qual, U.parents(f.node))
-        par = pm.get(id(s))
-        body = getattr(par, 'body', [])
-        if s not in body:
-            return False
-        i = body.index(s)
-        nxt = body[i + 1] if i + 1 < len(body) else None
-        return isinstance(nxt, ast.If) and norm_text(nxt.test) == 'not ' + x and nxt.body and isinstance(nxt.body[-1], ast.Return) and not nxt.orelse
+        if isinstance(s, ast.Assign) and len(s.targets) == 1 and isinstance(s.targets[0], ast.Name):
+            return s.targets[0].id
+        return None
     scope = [f for f in repo.funcs.values() if f.module.name.startswith('wpull.processor') or f.qual.startswith('wpull.application.tasks.download:ProcessTask')]
     n_checked = 0
     for f in scope:
@@ -243,9 +235,14 @@ def run(ctx):
         for a in fcfg.nodes:
             if 'CHECKIN' in node_labels(a):
                 callees = [g for c in F.node_calls(a) for g in res.callee_funcs(f, c, allow_name=True, count=False)]
-                if callees and all(reports_checkin_as_falsy(g) for g in callees) and caller_returns_on_falsy(f, a):
-                    ck.ok('C03-D5', f.qual, '%s reports a check-in as a falsy result and the caller returns on it' % _callee_names(a))
-                    continue
+                x = falsy_result_name(a)
+                if callees and x and all(reports_checkin_as_falsy(g) for g in callees):
+                    # the check-in happened only if the result is falsy: no link may be queued on a path consistent with a falsy result
+                    pth = F.feasible_path(fcfg, a, lambda m: 'BATCH' in node_labels(m) and m is not a, edge_ok=F.normal,
+                                          init={(x, 0): frozenset({'eq'})})
+                    if pth is None:
+                        ck.ok('C03-D5', f.qual, '%s reports a check-in as a falsy result and no link is queued on a path where it is falsy' % _callee_names(a))
+                        continue
                 pth = fcfg.find_path(a, lambda m: 'BATCH' in node_labels(m) and m is not a, edge_ok=F.normal)
                 if pth is not None:
                     b = pth[-1][0]
